@@ -104,7 +104,7 @@ func checkC10(c *Ctx) {
 			})
 		}
 	}
-	r.FloorN("PtFlag stores and GetMeta calls", nFlag, 10)
+	r.FloorN("PtFlag stores and GetMeta calls", nFlag, 5)
 
 	// ---- (2b) a tag's index entry always has type String (Point.Get returns a tag with the recorded type and
 	// reads Nil/Void entries as nil before it looks at the flag)
@@ -145,6 +145,46 @@ func checkC10(c *Ctx) {
 							fresh = true
 						}
 					}
+					// the entry is a parameter of an unexported helper: every call hands it over under PtFlag == PtField
+					if prm, isP := fa.X.(*ssa.Parameter); isP && !underField && (f.Object() == nil || !f.Object().Exported()) {
+						idx := -1
+						for k, q := range f.Params {
+							if q == prm {
+								idx = k
+							}
+						}
+						sites := callersOf(t)[f]
+						all := idx >= 0 && len(sites) > 0
+						for _, cs := range sites {
+							if idx >= len(cs.Call.Args) {
+								all = false
+								break
+							}
+							entry := cs.Call.Args[idx]
+							okSite := false
+							for _, ec := range factsAt(cs) {
+								bo, ok := ec.Cond.(*ssa.BinOp)
+								if !ok || !strings.HasSuffix(path(bo.X), ".PtFlag") {
+									continue
+								}
+								if ld, ok := bo.X.(*ssa.UnOp); ok {
+									if fb, ok := ld.X.(*ssa.FieldAddr); ok && fb.X != entry {
+										continue
+									}
+								}
+								k, isK := constInt(bo.Y)
+								if isK && ((k == fieldC && bo.Op == token.EQL && ec.Pol) || (k == tagC && bo.Op == token.NEQ && ec.Pol) || (k == tagC && bo.Op == token.EQL && !ec.Pol) || (k == fieldC && bo.Op == token.NEQ && !ec.Pol)) {
+									okSite = true
+								}
+							}
+							if !okSite {
+								all = false
+							}
+						}
+						if all {
+							underField = true
+						}
+					}
 					r.Ob("FLAG-DOMAIN", fmt.Sprintf("%s stores TFMeta.DType #%d", relName(f), ordinalOf(f, in)), t.Pos(x.Pos()), isStr || underField || fresh,
 						fmt.Sprintf("a type other than String may be recorded only for an entry known to be a field (stores String: %v, under PtFlag == PtField of the same entry: %v): a tag indexed as Nil reads as nil although the output holds its value", isStr, underField))
 				case *ssa.Call:
@@ -162,6 +202,7 @@ func checkC10(c *Ctx) {
 	r.FloorN("TFMeta.DType stores and tag GetMeta calls", nTy, 6)
 
 	// ---- (3) coherence typestate over each method of Point that writes the maps
+	var cohFns []*ssa.Function
 	for _, f := range t.PkgFuncs(pInput) {
 		if len(f.Params) == 0 || namedOf(f.Params[0].Type()) != "input.Point" {
 			continue
@@ -175,8 +216,78 @@ func checkC10(c *Ctx) {
 		if !touches || f.Name() == "InitPt" || f.Name() == "PutPoint" {
 			continue
 		}
-		r.Fn(relName(f))
-		c10Coherence(c, f, fieldC, tagC)
+		cohFns = append(cohFns, f)
+	}
+	// helpers (unexported functions of the package called by other functions of it) start in the states their call
+	// sites are in; functions reached only from InitPt / PutPoint belong to construction / release and are left to
+	// those rules
+	{
+		inSet := map[*ssa.Function]bool{}
+		for _, f := range cohFns {
+			inSet[f] = true
+		}
+		callers := map[*ssa.Function][]*ssa.Call{}
+		for _, f := range t.PkgFuncs(pInput) {
+			allInstrs(f, func(in ssa.Instruction) {
+				if call, ok := in.(*ssa.Call); ok {
+					if g := call.Call.StaticCallee(); g != nil && inSet[g] && g != f {
+						callers[g] = append(callers[g], call)
+					}
+				}
+			})
+		}
+		onlyFrom := func(g *ssa.Function, roots map[string]bool) bool {
+			seen := map[*ssa.Function]bool{}
+			var up func(x *ssa.Function) bool
+			up = func(x *ssa.Function) bool {
+				if seen[x] {
+					return true
+				}
+				seen[x] = true
+				if roots[x.Name()] {
+					return true
+				}
+				cs := callers[x]
+				if len(cs) == 0 || (x.Object() != nil && x.Object().Exported()) {
+					return false
+				}
+				for _, cl := range cs {
+					if !up(cl.Parent()) {
+						return false
+					}
+				}
+				return true
+			}
+			return len(callers[g]) > 0 && up(g)
+		}
+		entry := map[*ssa.Function]uint16{}
+		var helpers, roots []*ssa.Function
+		for _, f := range cohFns {
+			switch {
+			case onlyFrom(f, map[string]bool{"InitPt": true, "PutPoint": true}):
+				continue
+			case len(callers[f]) > 0 && (f.Object() == nil || !f.Object().Exported()):
+				helpers = append(helpers, f)
+			default:
+				roots = append(roots, f)
+			}
+		}
+		befores := map[*ssa.Function]map[ssa.Instruction]uint16{}
+		for _, f := range roots {
+			r.Fn(relName(f))
+			befores[f] = c10Coherence(c, f, fieldC, tagC, 1<<uint(c10enc(0, false, false)))
+		}
+		for _, f := range helpers {
+			for _, cl := range callers[f] {
+				if b, ok := befores[cl.Parent()]; ok {
+					entry[f] |= b[cl]
+				} else {
+					entry[f] |= 1 << uint(c10enc(0, false, false))
+				}
+			}
+			r.Fn(relName(f))
+			befores[f] = c10Coherence(c, f, fieldC, tagC, entry[f])
+		}
 	}
 	r.Floor("COHERENCE", 10)
 	c10InitPt(c, fieldC, tagC)
@@ -199,7 +310,7 @@ func metaFlagOf(v ssa.Value, fieldC, tagC int64) int {
 	return 0
 }
 
-func c10Coherence(c *Ctx, f *ssa.Function, fieldC, tagC int64) {
+func c10Coherence(c *Ctx, f *ssa.Function, fieldC, tagC int64, entry uint16) map[ssa.Instruction]uint16 {
 	r, t := c.R, c.T
 	isFlagLoad := func(v ssa.Value) bool {
 		u, ok := v.(*ssa.UnOp)
@@ -280,7 +391,16 @@ func c10Coherence(c *Ctx, f *ssa.Function, fieldC, tagC int64) {
 		}
 		return c10enc(flag, dF, dT)
 	}
-	before := ts.run()
+	before := map[ssa.Instruction]uint16{}
+	for st0 := 0; st0 < 12; st0++ {
+		if entry&(1<<uint(st0)) == 0 {
+			continue
+		}
+		ts.init = st0
+		for k, v := range ts.run() {
+			before[k] |= v
+		}
+	}
 	states := func(m uint16) string {
 		var s []string
 		for st := 0; st < 12; st++ {
@@ -366,6 +486,7 @@ func c10Coherence(c *Ctx, f *ssa.Function, fieldC, tagC int64) {
 				"when an existing entry is re-flagged as Tag the key must leave Fields on the same path (delete before or after, or proven absence), otherwise it is both a tag and a field; states at the flip: "+states(before[in]))
 		}
 	})
+	return before
 }
 
 // reachAvoidEdges: path from `from` to `to` that passes neither delete(pt.Fields, …) nor the false edge of `_, ok := pt.Fields[k]`.
@@ -427,22 +548,33 @@ func c10InitPt(c *Ctx, fieldC, tagC int64) {
 	r.Fn(relName(f))
 	// every Meta update keyed by the range key of the fields map carries PtField, of the tags map PtTag
 	okF, okT, bad := false, false, false
+	// InitPt itself and the same-package helpers it calls (the two loops may have been moved into methods)
+	scope := []*ssa.Function{f}
 	allInstrs(f, func(in ssa.Instruction) {
-		mu, ok := in.(*ssa.MapUpdate)
-		if !ok || !isPointMap(mu.Map, "Meta") {
-			return
-		}
-		fl := metaFlagOf(mu.Value, fieldC, tagC)
-		src := rangeSourceType(mu.Key)
-		switch {
-		case src == "map[string]any" && fl == 1:
-			okF = true
-		case src == "map[string]string" && fl == 2:
-			okT = true
-		default:
-			bad = true
+		if call, ok := in.(*ssa.Call); ok {
+			if h := call.Call.StaticCallee(); h != nil && h.Pkg == f.Pkg && len(h.Blocks) > 0 && h.Name() != "GetMeta" {
+				scope = append(scope, h)
+			}
 		}
 	})
+	for _, g := range scope {
+		allInstrs(g, func(in ssa.Instruction) {
+			mu, ok := in.(*ssa.MapUpdate)
+			if !ok || !isPointMap(mu.Map, "Meta") {
+				return
+			}
+			fl := metaFlagOf(mu.Value, fieldC, tagC)
+			src := rangeSourceType(mu.Key)
+			switch {
+			case src == "map[string]any" && fl == 1:
+				okF = true
+			case src == "map[string]string" && fl == 2:
+				okT = true
+			default:
+				bad = true
+			}
+		})
+	}
 	r.Ob("COHERENCE", "InitPt indexes every initial field as Field and every initial tag as Tag", t.Pos(f.Pos()), okF && okT && !bad, "Meta must be built from the two initial maps with the matching flags")
 	// a fresh Meta map
 	fresh := false
@@ -521,50 +653,84 @@ func c10Types(c *Ctx) {
 		return v
 	}
 	excluded := []int64{val("Nil"), val("Void"), val("Invalid"), val("List"), val("Map")}
+	// Set itself, and the methods it hands (value, dtype) to: the field stores may live in a helper
+	type setCtx struct {
+		g          *ssa.Function
+		val, dtype *ssa.Parameter
+	}
+	ctxs := []setCtx{{f, f.Params[2], f.Params[3]}}
 	allInstrs(f, func(in ssa.Instruction) {
-		mu, ok := in.(*ssa.MapUpdate)
-		if !ok || !isPointMap(mu.Map, "Fields") {
+		hc, ok := in.(*ssa.Call)
+		if !ok {
 			return
 		}
-		v := unwrapIface(mu.Value)
-		switch {
-		case v == ssa.Value(f.Params[2]): // raw value
-			neg := map[int64]bool{}
-			for _, ec := range controlling(mu.Block()) {
-				if bo, ok := ec.Cond.(*ssa.BinOp); ok && bo.Op == token.EQL && !ec.Pol && path(bo.X) == f.Params[3].Name() {
-					if k, ok := constInt(bo.Y); ok {
-						neg[k] = true
-					}
-				}
+		h := hc.Call.StaticCallee()
+		if h == nil || h.Pkg != f.Pkg || len(h.Blocks) == 0 {
+			return
+		}
+		sc := setCtx{g: h}
+		for k, a := range hc.Call.Args {
+			if k >= len(h.Params) {
+				break
 			}
-			okAll := true
-			for _, e := range excluded {
-				if !neg[e] {
-					okAll = false
-				}
+			if a == ssa.Value(f.Params[2]) {
+				sc.val = h.Params[k]
 			}
-			r.Ob("TYPES", "Point.Set stores the raw value only for scalar tags", t.Pos(mu.Pos()), okAll, "the raw value reaches Fields only when dtype is none of Nil/Void/Invalid/List/Map (those become nil or JSON text)")
-		case isNilConst(mu.Value) || isNilConst(v):
-			r.Ob("TYPES", fmt.Sprintf("Point.Set nil store #%d", ordinalOf(f, in)), t.Pos(mu.Pos()), true, "nil field")
-		default:
-			// must be the Conv2String result, recorded as String
-			isConv := strings.Contains(path(mu.Value), "Conv2String(")
-			r.Ob("TYPES", "Point.Set stores lists and maps as their JSON text", t.Pos(mu.Pos()), isConv, "value stored is "+path(mu.Value))
-			// … and records the type String for it in the same step
-			strC, _ := constInt(astp.Const("String").Value)
-			rec := false
-			for _, i2 := range mu.Block().Instrs {
-				if st, ok := i2.(*ssa.Store); ok {
-					if fa, ok := st.Addr.(*ssa.FieldAddr); ok && namedOf(fa.X.Type()) == "input.TFMeta" && fieldName(fa) == "DType" {
-						if k, isC := constInt(st.Val); isC && k == strC {
-							rec = true
+			if a == ssa.Value(f.Params[3]) {
+				sc.dtype = h.Params[k]
+			}
+		}
+		if sc.val != nil && sc.dtype != nil {
+			ctxs = append(ctxs, sc)
+		}
+	})
+	for _, sc := range ctxs {
+		f, valP, dtP := sc.g, sc.val, sc.dtype
+		allInstrs(f, func(in ssa.Instruction) {
+			mu, ok := in.(*ssa.MapUpdate)
+			if !ok || !isPointMap(mu.Map, "Fields") {
+				return
+			}
+			v := unwrapIface(mu.Value)
+			switch {
+			case v == ssa.Value(valP): // raw value
+				neg := map[int64]bool{}
+				for _, ec := range controlling(mu.Block()) {
+					if bo, ok := ec.Cond.(*ssa.BinOp); ok && bo.Op == token.EQL && !ec.Pol && path(bo.X) == dtP.Name() {
+						if k, ok := constInt(bo.Y); ok {
+							neg[k] = true
 						}
 					}
 				}
+				okAll := true
+				for _, e := range excluded {
+					if !neg[e] {
+						okAll = false
+					}
+				}
+				r.Ob("TYPES", "Point.Set stores the raw value only for scalar tags", t.Pos(mu.Pos()), okAll, "the raw value reaches Fields only when dtype is none of Nil/Void/Invalid/List/Map (those become nil or JSON text)")
+			case isNilConst(mu.Value) || isNilConst(v):
+				r.Ob("TYPES", fmt.Sprintf("Point.Set nil store #%d", ordinalOf(f, in)), t.Pos(mu.Pos()), true, "nil field")
+			default:
+				// must be the Conv2String result, recorded as String
+				isConv := strings.Contains(path(mu.Value), "Conv2String(")
+				r.Ob("TYPES", "Point.Set stores lists and maps as their JSON text", t.Pos(mu.Pos()), isConv, "value stored is "+path(mu.Value))
+				// … and records the type String for it in the same step
+				strC, _ := constInt(astp.Const("String").Value)
+				rec := false
+				for _, i2 := range mu.Block().Instrs {
+					if st, ok := i2.(*ssa.Store); ok {
+						if fa, ok := st.Addr.(*ssa.FieldAddr); ok && namedOf(fa.X.Type()) == "input.TFMeta" && fieldName(fa) == "DType" {
+							if k, isC := constInt(st.Val); isC && k == strC {
+								rec = true
+							}
+						}
+					}
+				}
+				r.Ob("TYPES", "Point.Set indexes the JSON text of a list or map as String", t.Pos(mu.Pos()), rec, "m.DType = ast.String next to Fields[key] = <JSON text>: the index must say what the output holds, whatever type the key had before")
 			}
-			r.Ob("TYPES", "Point.Set indexes the JSON text of a list or map as String", t.Pos(mu.Pos()), rec, "m.DType = ast.String next to Fields[key] = <JSON text>: the index must say what the output holds, whatever type the key had before")
-		}
-	})
+		})
+	}
 	r.Floor("TYPES", 3)
 	// Tags is map[string]string
 	_, st := t.NamedStruct(pInput, "Point")
